@@ -59,6 +59,25 @@ fn record(r: &ShellResult) -> Recorded {
     let mut probes_of: BTreeMap<i64, Vec<Value>> = BTreeMap::new();
     let mut gl: Vec<Value> = vec![];
     path.insert(MAIN_PID, vec![]);
+    // paths in the fork tree (k-th child of its parent); computed first because a
+    // fork becomes visible only after the scheduling step in which it happened
+    {
+        let mut seen: HashSet<i64> = HashSet::new();
+        seen.insert(MAIN_PID);
+        for e in &r.events {
+            if e["ev"] == "proc" {
+                let pid = e["pid"].as_i64().unwrap_or(-1);
+                let ppid = e["ppid"].as_i64().unwrap_or(-1);
+                if seen.insert(pid) {
+                    let k = nforks.entry(ppid).or_insert(0);
+                    *k += 1;
+                    let mut p = path.get(&ppid).cloned().unwrap_or_else(|| vec![-1, ppid]);
+                    p.push(*k);
+                    path.insert(pid, p);
+                }
+            }
+        }
+    }
     let path_of = |path: &BTreeMap<i64, Vec<i64>>, pid: i64| -> Value {
         match path.get(&pid) {
             Some(p) => json!(p),
@@ -104,11 +123,6 @@ fn record(r: &ShellResult) -> Recorded {
                             if st != "R" || ch || ppid != actor {
                                 bt.odd.push(format!("new process {pid} ppid={ppid} st={st} ch={ch} seen in a step of {actor}"));
                             }
-                            let k = nforks.entry(ppid).or_insert(0);
-                            *k += 1;
-                            let mut p = path.get(&ppid).cloned().unwrap_or_else(|| vec![-1, ppid]);
-                            p.push(*k);
-                            path.insert(pid, p);
                         }
                     }
                     Some((oppid, ost, och)) => {
